@@ -8,7 +8,12 @@ for j in ${1:-*}.json; do
   out=$(/verif/tools/try_patch.sh /verif/selftest/variants/$n.patch $props 2>&1)
   ok=1
   if echo "$out" | grep -q PATCH-DOES-NOT-APPLY; then echo "SKIP $n (does not apply)"; continue; fi
-  if [ $kind = breaking ]; then echo "$out" | grep -q 'exit=1' || ok=0; else echo "$out" | grep -qv 'exit=0' && ok=0; fi
+  resid=$(jq -r '(.residual // [])|join(" ")' $j)
+  if [ $kind = breaking ]; then echo "$out" | grep -q 'exit=1' || ok=0; else
+    alarms=$(echo "$out" | grep -v 'exit=0' | cut -d' ' -f1 | tr '\n' ' ')
+    for a in $alarms; do case " $resid " in *" $a "*) ;; *) ok=0;; esac; done
+    [ -n "$alarms" ] && [ $ok = 1 ] && echo "     $n: documented residual false alarm(s): $alarms"
+  fi
   if [ $ok = 1 ]; then pass=$((pass+1)); echo "ok   $n [$kind] $(echo $out)"; else fail=$((fail+1)); echo "FAIL $n [$kind] $(echo $out)"; fi
 done
 echo "selftest: pass=$pass fail=$fail"
